@@ -213,4 +213,12 @@ theorem nodeStep_apply_of (S : Schema) (doc n u : Node) (pos : Nat) (st : Step) 
     simp only [stepAttrs, stepMarks] at hu <;> simp [Schema.apply, hn, hu]
 
 
+theorem stepAttrs_mapPos (N : Step) (g : Nat → Nat) (pos : Nat) (hN : NodeStepAt pos N) :
+    stepAttrs (N.mapPos g) = stepAttrs N ∧ (∀ S, stepMarks S (N.mapPos g) = stepMarks S N) ∧
+      NodeStepAt (g pos) (N.mapPos g) := by
+  rcases hN with ⟨m, rfl⟩ | ⟨m, rfl⟩ | ⟨n, v, rfl⟩
+  · exact ⟨rfl, fun _ => rfl, .inl ⟨m, rfl⟩⟩
+  · exact ⟨rfl, fun _ => rfl, .inr (.inl ⟨m, rfl⟩)⟩
+  · exact ⟨rfl, fun _ => rfl, .inr (.inr ⟨n, v, rfl⟩)⟩
+
 end PM
